@@ -535,9 +535,10 @@ fn identifier(input: &str) -> Option<(LeftToParse<'_>, Identifier<'_>)> {
 ///
 /// [0]: std::fmt#syntax
 fn integer(input: &str) -> Option<(LeftToParse<'_>, usize)> {
+    // `format_args!` limits indices, widths and precisions to `u16`.
     and_then(
         take_while1(check_char(|c| c.is_ascii_digit())),
-        |(i, int)| int.parse().ok().map(|int| (i, int)),
+        |(i, int)| int.parse::<u16>().ok().map(|int| (i, int.into())),
     )(input)
 }
 
